@@ -285,7 +285,10 @@ fn unitop_strategy() -> BS<UnitOp> {
             .prop_map(|(k, u, s, d)| Dur::of_count(clamp(k * NPC) + if s { UNIT_NS[u] } else { -UNIT_NS[u] } + d))
             .boxed()),
     ]);
-    (a, 0usize..9, 0usize..9, 0u8..6).prop_map(|(a, u, v, op)| UnitOp { a, u, v, op }).boxed()
+    let free = (a, 0usize..9, 0usize..9, 0u8..6).prop_map(|(a, u, v, op)| UnitOp { a, u, v, op }).boxed();
+    // the duration is exactly (or within 2 ns of) -2, -1, 0, 1, 2 times the unit it is combined with
+    let same_unit = (0usize..9, -2i128..=2, small_delta(2), 0usize..9, 0u8..6).prop_map(|(u, k, d, v, op)| UnitOp { a: Dur::of_count(k * UNIT_NS[u] + d), u, v, op }).boxed();
+    wunion(vec![(5, free), (1, same_unit)])
 }
 
 fn unitop_oracle(c: &UnitOp) -> Verdict {
